@@ -172,7 +172,43 @@ def coding_kind(c):
 # alphabet
 
 
-def alphabet(full: bool):
+def core_alphabet():
+    """the smallest alphabet (used for the deepest search): every operation kind, the codings with distinct decoder
+    behaviour (gzip lenient, deflate two formats, br strict), every class of input, message 1 with a few operations"""
+    acts = []
+    for b in ("empty", "a", "abc20"):
+        for c in ("identity", "gzip", "deflate", "br", "GZip", "foo"):
+            acts.append(["enc", b, c, "strict"])
+    acts.append(["enc", "a", "gzip", "ignore"])
+    for n, c in (("gzip:a", "gzip"), ("gzip:trunc", "gzip"), ("x", "gzip"), ("deflate:a", "deflate"), ("x", "deflate"),
+                 ("br:a", "br"), ("zstd:a", "zstd"), ("zlib:a", "gzip"), ("rawdeflate:a", "deflate"), ("gzip:a", "GZip"),
+                 ("x", "foo")):
+        acts.append(["dec", n, c, "strict"])
+    acts.append(["dec", "gzip:a", "gzip", "ignore"])
+    for c in (None, "gzip", "deflate", "br", "GZip", "foo"):
+        for b in ("empty", "a", "abc20"):
+            acts.append(["assign", 0, c, b])
+    for n, c in (("gzip:a", "gzip"), ("gzip:trunc", "gzip"), ("x", "gzip"), ("empty", "gzip"), ("deflate:a", "deflate"),
+                 ("zlib:a", "gzip"), ("br:a", "br"), ("x", "foo")):
+        acts.append(["wire", 0, n, c])
+    for strict in (True, False):
+        acts.append(["get", 0, strict])
+        acts.append(["decode", 0, strict])
+    for c in ("identity", "gzip", "deflate", "br"):
+        acts.append(["encode", 0, c])
+    for c in (None, "gzip", "deflate"):
+        for b in ("empty", "a"):
+            acts.append(["assign", 1, c, b])
+    for n, c in (("gzip:a", "gzip"), ("gzip:trunc", "gzip"), ("x", "gzip"), ("zlib:a", "gzip"), ("deflate:a", "deflate")):
+        acts.append(["wire", 1, n, c])
+    acts += [["get", 1, True], ["decode", 1, True], ["encode", 1, "gzip"], ["encode", 1, "deflate"]]
+    return acts
+
+
+def alphabet(level: str):
+    if level == "core":
+        return core_alphabet()
+    full = level == "full"
     acts = []
     bodies = ["empty", "a", "abc20"] + (["00ff"] if full else [])
     enc_codings = ["identity", "gzip", "deflate", "br", "zstd", "GZip", "foo"] + (["none"] if full else [])
@@ -380,8 +416,8 @@ def cache_features(cache, a, msgs):
 
 
 class Spec:
-    def __init__(self, full):
-        self.acts = alphabet(full)
+    def __init__(self, level):
+        self.acts = alphabet(level)
 
     def build(self):
         return Sys()
@@ -537,16 +573,18 @@ def run(ctx):
     differ = sum(1 for c in SUPPORTED for b in ("a", "abc20") if INPUTS["%s:%s" % (c, b)] != enc_mod.encode(BODIES[b], c))
     enc_mod._cache = enc_mod.CachedDecode(*EMPTY_CACHE)
     ctx.info["independent_encodings_differing_from_mitmproxys"] = differ
-    # quick: reduced alphabet to depth 3 (in-process: the search is ~10 s of CPU and forking 16 workers per level costs
-    # more than it saves); thorough: full alphabet to depth 3 and the reduced alphabet to depth 4, on the pool
-    searches = ctx.pick([("reduced", False, 3, 1)], [("full", True, 3, None), ("reduced", False, 4, None)])
+    # quick: reduced alphabet to depth 3; thorough: full alphabet to depth 3 and the core alphabet to depth 4.
+    # The searches run in-process (nproc=1): a transition costs ~50 us, and measured on this machine a level dealt to
+    # forked workers is several times slower than in-process (copy-on-write page faults dominate), so the pool only
+    # hurts; wall time is then independent of the load other jobs put on the remaining cores.
+    searches = ctx.pick([("reduced", 3)], [("full", 3), ("core", 4)])
     ctx.bounds = {"bodies": sorted(BODIES), "inputs": sorted(INPUTS),
                   "operations": "enc(body,coding,errors) dec(input,coding,errors) assign(msg,coding,body) wire(msg,input,coding) "
                                 "get(msg,strict) decode(msg,strict) encode(msg,coding)",
                   "searches": []}
-    for name, full, depth, nproc in searches:
-        spec = Spec(full)
-        states, capped = explore.bfs(spec, depth, ctx.tally, log=ctx.log, nproc=nproc)
+    for name, depth in searches:
+        spec = Spec(name)
+        states, capped = explore.bfs(spec, depth, ctx.tally, log=ctx.log, nproc=1)
         if capped:
             ctx.cap("max_states")
         ctx.bounds["searches"].append({"alphabet": name, "actions_per_state": len(spec.acts), "bfs_depth": depth, "states": states})
